@@ -335,4 +335,8 @@ class C06(core.PropBase):
 PROP = C06()
 
 if __name__ == "__main__":
+    # second stream: ONE Coq function for all of create_job (CreateJobFull.v), fed only the raw documents and the
+    # caller's values, against the real create_job (props/C06x.v: C06_full_exn / C06_full_total)
+    import c06full  # noqa: E402  (imports this module's generators: attach it here, not at import time)
+    PROP.also = [c06full.PROP]
     sys.exit(core.main(PROP, sys.argv[1:]))
